@@ -192,6 +192,8 @@ pub struct TaskInfo {
     pub dyn_must: RefCell<Option<Rc<Cell<bool>>>>,
     /// ... unless this flag is set (e.g. the service the operation depends on is gone).
     pub dyn_unless: RefCell<Option<Rc<Cell<bool>>>>,
+    /// The task is inside a poll-counting cancellation wrapper (an extra poll changes its course).
+    pub in_cancel: Cell<u32>,
     pub done: Cell<bool>,
 }
 
@@ -273,6 +275,15 @@ impl<F: Future> Future for CancelAfter<F> {
     }
 }
 
+/// Runs a cancellation wrapper while marking the task (an extra poll would change its course, so the
+/// lost-wake-up probe at quiescence leaves such tasks alone).
+pub async fn cancelling<F: Future>(info: &TaskInfo, fut: F, polls: u32) -> Option<F::Output> {
+    info.in_cancel.set(info.in_cancel.get() + 1);
+    let r = CancelAfter::new(fut, polls).await;
+    info.in_cancel.set(info.in_cancel.get() - 1);
+    r
+}
+
 /// Yields to the scheduler once.
 pub struct YieldOnce(bool);
 
@@ -348,6 +359,7 @@ impl Ctx {
             blocked: Cell::new(None),
             dyn_must: RefCell::new(None),
             dyn_unless: RefCell::new(None),
+            in_cancel: Cell::new(0),
             done: Cell::new(false),
         });
         let _ = must_finish;
@@ -723,7 +735,7 @@ async fn run_op(ctx: &Ctx, op: AOp, info: &Rc<TaskInfo>) {
                         ctx.probe("call-dropped-at-once");
                     }
                     1 => {
-                        let r = CancelAfter::new(pending, 1 + (op.d >> 4) % 3).await;
+                        let r = cancelling(info, pending, 1 + (op.d >> 4) % 3).await;
                         if r.is_none() {
                             flag.set(true);
                             ctx.probe("call-cancelled-mid-flight");
